@@ -180,6 +180,9 @@ NEAR_MISS_TEXT = {
 'nm_leftrec_choice_first': "token A B C; start s; s: x; x: x C / A B;",
 'nm_leftrec_opt': "token A B; start s; s: x B; x: [x] A;",
 'nm_leftrec_star': "token A B; start s; s: x B; x: x* A;",
+'nm_leftrec_pred_cycle_behind_start': "token A B C D E; start s; s: y B; y: ?1 z A | C; z: ?2 y D | E;",
+'nm_leftrec_pred_cycle_two_entries': "token A B C D E; start s; s: y B | z B; y: ?1 z A | C; z: ?2 y D | E;",
+'nm_leftrec_choice_cycle_behind_start': "token A B C D E; start s; s: w B; w: y; y: z A / C; z: y D / E;",
 'nm_leftrec_pred_indirect': "token A B C D; start s; s: x; x: ?1 y C | A B; y: x D;",
 'nm_leftrec_indirect_nullable': "token A B; start s; s: x B; x: y x A | B; y: [A];",
 'nm_choice_create_outer': "token A B C D; start s; s: <1 A (B 1>x C / B D);",
